@@ -38,4 +38,19 @@ PROPS = {
         ],
         min_interesting=5,
     ),
+    # opt-in facet: the node's own min-gas-prices name a denom the global fee does not list.  On the unchanged tree this
+    # check REJECTS (see the X02 report: CombinedGasPricesRequirement is called with its two arguments swapped, so the
+    # node's denoms replace the global fee's); every Check line of these scripts carries the input-derived tag
+    # `node-price-other-denom`, i.e. a line `finding: property=X02D sig=Check:node-price-other-denom ...` in
+    # known_findings.txt turns the rejections into KNOWN-FINDING.
+    "X02D": dict(
+        mc=[dict(tla="FeeFree_MC.tla", cfg="FeeFree_MC_fee.cfg", tier="quick", timeout=300, workers=4)],
+        drive=dict(family="feefree", mode="multidenom", nrand=dict(quick=0, thorough=0)),
+        trace=dict(tla="FeeFree_Trace.tla", cfg="FeeFree_Trace_X02.cfg"),
+        level="model_checking",
+        rule="two hand-written scripts: global fee 0.0025uband, node price 0.001uabc (alone / together with 0.005uband); "
+             "paying transactions offer the fee in uband, in uabc, in both, in neither",
+        assumptions=["as X02; the rule judged is the one of FeeFree.tla: only the global fee's denom counts"],
+        min_interesting=0,
+    ),
 }
